@@ -47,6 +47,8 @@ def run(ctx):
     ring(ctx, facts)
     ring_ops(ctx, facts)
     waker_store(ctx, facts)
+    from rules import C13
+    C13.spare(ctx, facts)             # the receive side's reassembly of messages from chunks
     ctx.assume("std::task::Waker, std::sync::Mutex and AtomicUsize behave as documented")
 
 
